@@ -1065,7 +1065,8 @@ def c05_r8(ctx):
                               okmsg=f"{fn}: subscript={sub} name={isname} head={idok} -> {want}")
     # the arguments generator has its own copy of the Optional test
     fi = repo.func("client_generators.arguments:ArgumentsGenerator._is_nullable")
-    p = fi.node.args.args[1].arg
+    from ..util import real_params
+    p = real_params(fi)[0]
     for sub, isname, idok in ((True, True, True), (True, True, False), (True, False, False), (False, False, False)):
         def atom2(e, sub=sub, isname=isname, idok=idok):
             t = norm(strip_pre(e))
